@@ -135,24 +135,30 @@ def gen_scalar_program(rng, i, jit):
         consts[n] = rng.choice([dy(rng, -4, 4, 4), round(rng.uniform(-3, 3), 2), dy(rng, 0.25, 4, 8)])
         if consts[n] == 0:
             consts[n] = 1.5
-    voc = X.Vocabulary(variables, consts)
+    # a quarter of the programs stay inside the fragment of `diff_sound`, so that differentiate /
+    # derivatives are exercised on every differentiable construct
+    diffable = rng.random() < 0.25
+    if diffable:
+        voc = X.Vocabulary(variables, consts, allow_step=False, fun1=sorted(X.DIFF_FUN1), fun2=["pow"])
+    else:
+        voc = X.Vocabulary(variables, consts)
     # user functions
     g0 = X.Gen(rng, voc)
-    for n in rng.sample(UFUNC_NAMES, rng.choice([0, 0, 0, 1, 1, 2])):
+    for n in rng.sample(UFUNC_NAMES, rng.choice([0, 0, 0, 1, 1, 2]) if not diffable else 0):
         ps = ["v"] if rng.random() < 0.6 else ["v", "w"]
         voc.ufuncs[n] = (ps, g0.user_body(ps, rng.choice([2, 3])))
     # indexed variable / indexed constant
     indexed_var = None
-    if rng.random() < 0.15:
+    if rng.random() < 0.15 and not diffable:
         indexed_var = rng.choice(["arr", "vec", "q"])
         voc.indexed[indexed_var] = [rng.choice([(-2.0, 2.0), (0.5, 3.0)]) for _ in range(rng.choice([2, 3]))]
     if rng.random() < 0.12:
         voc.indexed_consts["w"] = [dy(rng, -3, 3, 4) or 1.0 for _ in range(rng.choice([2, 3]))]
     gen = X.Gen(rng, voc)
-    top_cmp = rng.random() < 0.06
+    top_cmp = rng.random() < 0.06 and not diffable
     e = gen.comparison() if top_cmp else gen.expression(6)
     family = None
-    if not top_cmp and rng.random() < 0.05 and variables:
+    if not top_cmp and not diffable and rng.random() < 0.05 and variables:
         # regression family: absolute values of exponentials, which sympy's simplification turns into
         # exp(re(.)) / 2**re(.) because symbols are not declared real (repaired: fix 23b1a1d)
         family = "abs-of-exponential"
@@ -684,7 +690,7 @@ def _run_program(prog, obs, errs):
 
     # ---------------------------------------------------------------------------------------
     if kind == "tensor":
-        text = X.tensor_text_from(prog["texts"]) if hasattr(X, "tensor_text_from") else _nested_text(prog["texts"])
+        text = _nested_text(prog["texts"])
         sig = [l[0] for l in prog["sig"]]
         try:
             e = TensorExpression(text, sig, consts=consts)
